@@ -23,7 +23,7 @@ theorem flexValidate_any_fuel (hl : l.Law) (hd : Pow2 d.align) (os : Nat) (hos :
     | succ F =>
       cases step with
       | term hr => exact flexValidate_term d l os F pos data hal hla hlen hr
-      | last next hr hn hmax h1 h2 hv => exact flexValidate_last d l os F pos next data hal hla hlen hr hn hmax h1 h2 hv
+      | last next hr hn hmax h2 hv => exact flexValidate_last d l os F pos next data hal hla hlen hr hn hmax h2 hv
       | item next hr hn hmax h1 h2 hv hrest =>
         exact flexValidate_item d l os F pos next data hal hla hlen hr hn hmax h1 h2 hv
           (ih (pos + next) (data.drop next) hrest F (by simp only [Slice.len_drop]; omega))
@@ -38,9 +38,9 @@ theorem FlexOK.term (hl : l.Law) (hd : Pow2 d.align) (os pos : Nat) (data : Slic
   ⟨1, flexValidate_term d l os 0 pos data hal (mod_trans hal (Pow2.max_mod_left hl.align_pow2 hd)) hlen hr⟩
 
 theorem FlexOK.last (hl : l.Law) (hd : Pow2 d.align) (os pos : Nat) (data : Slice) (hal : data.addr % max l.align d.align = 0)
-    (hlen : l.size ≤ data.len) (hr : l.readU data = .ok l.max) (hn : l.max ≠ 0) (h1 : os ≤ l.max) (h2 : os ≤ data.len)
+    (hlen : l.size ≤ data.len) (hr : l.readU data = .ok l.max) (hn : l.max ≠ 0) (h2 : os ≤ data.len)
     (hv : d.validate (data.drop os) = .ok ()) : FlexOK d l os pos data :=
-  ⟨1, flexValidate_last d l os 0 pos l.max data hal (mod_trans hal (Pow2.max_mod_left hl.align_pow2 hd)) hlen hr hn rfl h1 h2 hv⟩
+  ⟨1, flexValidate_last d l os 0 pos l.max data hal (mod_trans hal (Pow2.max_mod_left hl.align_pow2 hd)) hlen hr hn rfl h2 hv⟩
 
 theorem FlexOK.item (hl : l.Law) (hd : Pow2 d.align) (os pos next : Nat) (data : Slice) (hal : data.addr % max l.align d.align = 0)
     (hlen : l.size ≤ data.len) (hr : l.readU data = .ok next) (hn : next ≠ 0) (hmax : next ≠ l.max) (h1 : os ≤ next)
@@ -151,7 +151,7 @@ theorem flexFinish_spec (pos : Nat) (lastSlot : Option Nat) (whole b : Bytes) (r
           exact drop_take_eq hbp (by omega))
       apply FlexOK.last d l hl hpa _ q ⟨base + q, b'.drop q⟩ hqal (by simp only [Slice.len, List.length_drop]; omega)
         (readU_of_take l _ l.max (lmax_lt l) (mod_trans hqal (Pow2.max_mod_left hl.align_pow2 hpa)) hread)
-        (by omega) (by omega) (by simp only [Slice.len, List.length_drop]; omega)
+        (by omega) (by simp only [Slice.len, List.length_drop]; omega)
       show d.validate ⟨base + q + max l.size d.align, (b'.drop q).drop (max l.size d.align)⟩ = .ok ()
       rw [List.drop_drop]
       exact validate_ok_iff.2 ⟨hia, by simp only [Slice.len, List.length_drop]; omega, hloc.1⟩
